@@ -23,10 +23,10 @@ SCHEMA = {
     'Peak': {'position': REAL, 'height': REAL, 'leftProminenceBasePosition': REAL,
              'rightProminenceBasePosition': REAL, 'score': REAL},
     'AlignedPair': {'reference': PWS, 'query': PWS, 'queryShift': REAL, 'source': INT},
-    'ScoredAlignedPair': {'score': REAL},
+    'ScoredAlignmentPosition': {'score': REAL},
     'NotAlignedQueryPosition': {'query': PWS, 'referenceStart': REAL},
     'NotAlignedReferencePosition': {'reference': PWS},
-    'ScoredNotAlignedPosition': {'score': REAL, 'position': NAP},
+    'ScoredNotAlignedPosition': {'position': NAP},
     'AlignmentSegment': {'positions': LIST(SCORED), 'segmentScore': REAL, 'alignedPositions': LIST(OBJ('ScoredAlignedPair')),
                          'peak': PEAK, 'allPeakPositions': LIST(SCORED)},
     '_AlignmentSegmentBuilder': {'minScore': REAL, 'breakSegmentThreshold': REAL, 'positions': LIST(SCORED),
